@@ -2,6 +2,7 @@
 // the state a freshly constructed emitter has after the same attach: nothing of the earlier use survives.
 #include <asmjit/x86.h>
 #include <asmjit/core/emitterutils_p.h>
+#include <asmjit/x86/x86instapi_p.h>
 #include "verif.h"
 using namespace asmjit;
 
@@ -29,7 +30,10 @@ static bool same_state(const x86::Assembler& a, const x86::Assembler& b) {
          a._environment == b._environment && a._gp_signature._bits == b._gp_signature._bits &&
          a._inst_options == b._inst_options && a._extra_reg._signature._bits == b._extra_reg._signature._bits && a._extra_reg._id == b._extra_reg._id && a._inline_comment == b._inline_comment &&
          a._encoding_options == b._encoding_options && a._diagnostic_options == b._diagnostic_options &&
-         a._section == b._section && a._buffer_data == b._buffer_data && a._buffer_ptr == b._buffer_ptr && a._buffer_end == b._buffer_end;
+         a._section == b._section && a._buffer_data == b._buffer_data && a._buffer_ptr == b._buffer_ptr && a._buffer_end == b._buffer_end &&
+         // the function table: the validator depends on the mode of the holder (seeded change C16-m2 kept the first one)
+         a._funcs.validate == b._funcs.validate && a._funcs.emit_prolog == b._funcs.emit_prolog && a._funcs.emit_epilog == b._funcs.emit_epilog &&
+         a._funcs.emit_args_assignment == b._funcs.emit_args_assignment && a._funcs.format_instruction == b._funcs.format_instruction;
 }
 static void dirty(x86::Assembler& a) {   // what an arbitrary earlier use may leave behind
   a._inst_options = InstOptions(nondet_u32()); a._extra_reg._signature._bits = nondet_u32(); a._extra_reg._id = nondet_u32();
@@ -53,6 +57,7 @@ HARNESS h_detach_reattach() {
   V_ASSERT(same_state(a, b), "re-attached emitter state equals a freshly attached emitter's");
   V_ASSERT(a._buffer_ptr == buf2 + sect2.v._buffer._size && a._buffer_end == buf2 + 32 && a._section == &sect2.v, "cursor at the end of the new holder's text section");
   V_ASSERT(Support::test(a._forced_inst_options, InstOptions::kX86_InvalidRex) == !x64_2 && a._private_data == (x64_2 ? 0x80u : 0x40u), "mode-dependent state follows the new holder");
+  V_ASSERT(a._funcs.validate == (x64_2 ? x86::InstInternal::validate_x64 : x86::InstInternal::validate_x86), "the validator of the re-attached emitter is the one of the new holder's mode");
   verif_observe(uint32_t(a._forced_inst_options)); verif_observe(a._private_data);
   a._code = nullptr; b._code = nullptr;   // so that the destructors do not call CodeHolder::detach (not part of this unit)
   V_WITNESS("reattach");
